@@ -15,6 +15,8 @@ structure Outcome where
       (input inside the documented precondition, relation = the property's notion of sameness) -/
   decisive : Bool := true
   note : String := ""
+  /-- class of the failure, used to match recorded known findings (never an exact input) -/
+  klass : String := "-"
 
 namespace Drv
 
@@ -266,7 +268,20 @@ def ff (B : Backend) (op : String) (args : List Sx) (impl : Sx) : Option Outcome
     pure (exact (FinFun.injections s a) impl)
   | "ff.cumulative_sum", [f] => do
     let f : FinFun ← dec f
-    pure (exact (FinFun.cumulativeSum f) impl)
+    let o := exact (FinFun.cumulativeSum f) impl
+    -- oracle on the IMPLEMENTATION's answer: a finite function must map into its codomain
+    -- (C06: "cumulative sum … has its set-theoretic meaning")
+    match (unOk impl).bind (dec (α := FinFun)) with
+    | some r =>
+      if o.agree && !r.wf then
+        let trailingZero := f.wf && f.table.getLast? == some 0 && r.table.all (· ≤ r.target)
+        pure { o with
+               agree := false
+               rel := "oracle:result-is-a-function-into-its-codomain"
+               klass := (if trailingZero then "cumsum-codomain-excludes-total(trailing-zero)" else "cumsum-ill-formed")
+               note := "cumulative_sum returned a table entry equal to its codomain size" }
+      else pure o
+    | none => pure o
   | "ff.is_injective", [f] => do
     let f : FinFun ← dec f
     pure (exact (FinFun.isInjective f) impl)
